@@ -137,8 +137,8 @@ class TileManager(object):
 
             if rescale_till_zoom < 0:
                 rescale_till_zoom = 0
-            if rescale_till_zoom > self.grid.levels:
-                rescale_till_zoom = self.grid.levels
+            if rescale_till_zoom > self.grid.levels - 1:
+                rescale_till_zoom = self.grid.levels - 1
 
         # Remove tiles that are not in the cache coverage
         if self.cache.coverage:
